@@ -213,7 +213,7 @@ def check_range(run, u, start, stop, step):
 # ----------------------------------------------------------------------------
 SCOPE = ("units second/minute/hour/day/week(Sunday)/month/year of d3_time, naive instants of ms resolution 1900-01-01..2200-12-31: "
          "(a) floor/ceil/round of every unit at 5 times of day (00:00:00.000, 00:00:00.001, 12:00:00.000, 23:59:59.999, one hashed ms) "
-         "of EVERY day 1900-2200 (thorough) / every day of 1900, 1969, 1970, 2000, 2024, 2100, 2200 plus (units day..year) the last and first day "
+         "of EVERY day 1900-2200 (thorough; the first 3 of these times when the budget is under 200 s) / every day of 1900, 1969, 1970, 2000, 2024, 2100, 2200 plus (units day..year) the last and first day "
          "of every month of every year (quick); (b) the round-tie instants (+-1 ms) of every month and year, every week of selected years; "
          "(c) second/minute/hour at every hour of selected years at 3-6 offsets incl. the second/minute/hour ties; (d) offset(boundary, k) for every k in 0..400 "
          "from ~45 anchor boundaries per unit, day offsets 1,2,3,7,31 from every enumerated day; (e) range(start, stop, step) for steps "
@@ -221,8 +221,8 @@ SCOPE = ("units second/minute/hour/day/week(Sunday)/month/year of d3_time, naive
          "enumerated years; then seeded random instants / offsets / ranges until the budget is spent")
 
 QUICK_YEARS = [1900, 1969, 1970, 2000, 2024, 2100, 2200]
-HOUR_YEARS_QUICK = [1969, 2024]
-HOUR_YEARS_THOROUGH = [1900, 1969, 1970, 2024, 2200]
+HOUR_YEARS_QUICK = [1969]
+HOUR_YEARS_THOROUGH = [1969, 2024, 1900, 1970, 2200]
 TIE_WEEK_YEARS_THOROUGH = [1900, 1901, 1950, 1969, 1970, 1999, 2000, 2023, 2024, 2038, 2100, 2200]
 
 ANCHORS = [
@@ -242,18 +242,18 @@ ANCHORS = [
 ]
 
 
-def day_instants(day):
+def day_instants(day, n=5):
     """the enumerated instants of a calendar day (datetime at midnight)"""
     h = (day.toordinal() * 2654435761 + 12345) % DAY_MS
-    return [day, day + ONE_MS, day + timedelta(hours=12), day + timedelta(milliseconds=DAY_MS - 1),
-            day + timedelta(milliseconds=h)]
+    return [day, day + timedelta(hours=12), day + timedelta(milliseconds=DAY_MS - 1), day + ONE_MS,
+            day + timedelta(milliseconds=h)][:n]
 
 
-def enum_days(run, days, label, units=UNITS):
+def enum_days(run, days, label, units=UNITS, ntimes=5):
     """(a) + the day offsets of (d) for an iterable of midnights; returns False when cut by the budget"""
     n = 0
     for day in days:
-        for t in day_instants(day):
+        for t in day_instants(day, ntimes):
             run.case(ms_of(t))
             check_instant(run, t, units)
         for k in (1, 2, 3, 7, 31):
@@ -350,11 +350,30 @@ def enum_offsets(run, anchors):
 R_MAX = datetime(2201, 1, 1)   # range stops stay at the end of the quantifier's domain
 
 
-def enum_ranges(run, anchors, lengths, month_years):
-    """(e)"""
-    for u in UNITS:
-        steps = [1] if u == "week" else list(range(1, 13))
-        for a in anchors:
+def enum_month_end_ranges(run, month_years):
+    """(e1) every month end: days 27th .. 4th 12:00, all steps (the day number restarts at the month boundary)"""
+    for y in month_years:
+        for m in range(1, 13):
+            start = datetime(y, m, 27) - ONE_MS
+            nm = o_next("month", datetime(y, m, 1))
+            stop = nm + timedelta(days=3, hours=12)
+            run.case(("rm", y, m))
+            for step in range(1, 13):
+                check_range(run, "day", start, stop, step)
+            check_range(run, "week", start, stop, 1)
+            check_range(run, "hour", nm - timedelta(hours=30), nm + timedelta(hours=7), 1 + (y * 12 + m) % 12)
+        if y % 16 == 0 and run.left() < run.budget * 0.15:
+            run.note("month-end range enumeration cut by the time budget at year %d" % y)
+            return False
+    return True
+
+
+def enum_ranges(run, anchors, lengths):
+    """(e2) anchor-major, so that a budget cut drops anchors and never a unit; returns the number of anchors done"""
+    done = 0
+    for a in anchors:
+        for u in UNITS:
+            steps = [1] if u == "week" else list(range(1, 13))
             f = o_floor(u, a)
             for start in (f, f + ONE_MS, f - ONE_MS if f > T_MIN else f, a):
                 stops = {start, start + ONE_MS}
@@ -368,21 +387,11 @@ def enum_ranges(run, anchors, lengths, month_years):
                     run.case(("r", u, ms_of(start), ms_of(stop)))
                     for step in steps:
                         check_range(run, u, start, stop, step)
-        if run.left() < run.budget * 0.2:
-            run.note("range enumeration cut by the time budget at unit %s" % u)
-            return False
-    # every month end: days 27th .. 4th 12:00, all steps (the day number restarts at the month boundary)
-    for y in month_years:
-        for m in range(1, 13):
-            start = datetime(y, m, 27) - ONE_MS
-            nm = o_next("month", datetime(y, m, 1))
-            stop = nm + timedelta(days=3, hours=12)
-            run.case(("rm", y, m))
-            for step in range(1, 13):
-                check_range(run, "day", start, stop, step)
-            check_range(run, "week", start, stop, 1)
-            check_range(run, "hour", nm - timedelta(hours=30), nm + timedelta(hours=7), 1 + (y * 12 + m) % 12)
-    return True
+        done += 1
+        if run.left() < run.budget * 0.12:
+            run.note("range enumeration cut by the time budget after %d of %d anchors" % (done, len(anchors)))
+            break
+    return done
 
 
 def random_instant(rng):
@@ -404,37 +413,44 @@ def random_instant(rng):
 
 def explore(run):
     quick = run.tier == "quick"
+    full = (not quick) and run.budget >= 200      # thorough with a short budget enumerates 3 instead of 5 times of day
     oracle_selftest(run.rng)
     # (a)
     if quick:
         ok = True
         for y in QUICK_YEARS:
             ok = ok and enum_days(run, all_days(y, y), "every day of %d" % y)
-        ok = ok and enum_days(run, month_edge_days(1900, 2200), "month ends 1900-2200", ("day", "week", "month", "year"))
+        ok = ok and enum_days(run, month_edge_days(1900, 2200), "month ends 1900-2200", ("day", "week", "month", "year"), 3)
         if ok:
-            run.exhaustive("floor/ceil/round, 7 units, 5 times of day: every day of %s + (day/week/month/year only) first and last day of every month 1900-2200"
+            run.exhaustive("floor/ceil/round, 7 units, 5 times of day: every day of %s + (day/week/month/year only, 00:00:00.000 / 12:00 / 23:59:59.999) first and last day of every month 1900-2200"
                            % QUICK_YEARS)
         month_years = QUICK_YEARS
     else:
-        ok = enum_days(run, all_days(1900, 2200), "every day 1900-2200")
+        ok = enum_days(run, all_days(1900, 2200), "every day 1900-2200", UNITS, 5 if full else 3)
         if ok:
-            run.exhaustive("floor/ceil/round, 7 units, 5 times of day: every day 1900-01-01..2200-12-31 (110,000+ days)")
+            run.exhaustive("floor/ceil/round, 7 units, %s: every day 1900-01-01..2200-12-31 (110,000+ days)"
+                           % ("5 times of day" if full else "3 times of day (00:00:00.000, 12:00:00.000, 23:59:59.999; budget < 200 s)"))
         month_years = list(range(1900, 2201))
     # (b)
     enum_ties(run, QUICK_YEARS if quick else TIE_WEEK_YEARS_THOROUGH)
     run.exhaustive("round ties +-1 ms of every month and year 1900-2200, every week of selected years")
-    # (c)
-    yrs = enum_hours(run, HOUR_YEARS_QUICK if quick else HOUR_YEARS_THOROUGH, 8 if quick else 1)
-    run.exhaustive("second/minute/hour at offsets 0, 30:00.000, 59:59.999 of every hour (+ 0.499 s, 0.500 s, 30.000 s of every %s hour) of years %s"
-                   % ("8th" if quick else "", yrs))
+    # (e1) before the long enumerations: the month ends are where day stepping used to fail
+    if enum_month_end_ranges(run, month_years):
+        run.exhaustive("range of days (steps 1..12), weeks, hours across every month end (27th..4th) of %s"
+                       % ("1900-2200" if not quick else QUICK_YEARS))
     # (d)
     enum_offsets(run, ANCHORS[::2] if quick else ANCHORS)
     run.exhaustive("offset(boundary, k) for every k in 0..400 from the anchor boundaries of every unit")
-    # (e)
+    # (c)
+    hyears = HOUR_YEARS_QUICK if quick else (HOUR_YEARS_THOROUGH if full else HOUR_YEARS_THOROUGH[:3])
+    yrs = enum_hours(run, hyears, 8 if quick else 1)
+    run.exhaustive("second/minute/hour at offsets 0, 30:00.000, 59:59.999 of every hour (+ 0.499 s, 0.500 s, 30.000 s of every %shour) of years %s"
+                   % ("8th " if quick else "", yrs))
+    # (e2)
     lengths = [0.5, 1, 2.5, 13, 40] if quick else [0.5, 1, 2.5, 7, 13, 31, 40, 61, 100]
-    if enum_ranges(run, ANCHORS[::5] if quick else ANCHORS, lengths, month_years):
-        run.exhaustive("range(start, stop, step) steps 1..12 over anchors x lengths %s + every month end of %s"
-                       % (lengths, "1900-2200" if not quick else QUICK_YEARS))
+    anchors = ANCHORS[::6] if quick else (ANCHORS if full else ANCHORS[::2])
+    k = enum_ranges(run, anchors, lengths)
+    run.exhaustive("range(start, stop, step) steps 1..12, 7 units, %d anchors x 4 starts x lengths %s (+ boundary-exclusive stops)" % (k, lengths))
     # seeded random
     rng = run.rng
     while run.left() > 0:
